@@ -36,22 +36,22 @@ import (
 const (
 	sentinel    = "C08INJECT"
 	findingDrop = "C08-empty-array-element-dropped"
-	envHelper   = "C08_ARGVECHO"
-	helperMark  = "C08ARGV:"
+	helperMark  = "C08ARGV"
 )
 
-var selfExe string
+// helper is an external program used as argv echo: coreutils printf with the
+// format `%s\0` prints every argument followed by a NUL byte (arguments cannot
+// contain NUL), so the vector is recovered unambiguously.
+var helper string
 
 func TestMain(m *testing.M) {
-	if os.Getenv(envHelper) == "1" {
-		// external argv echo helper: this very test binary re-executed by murex
-		b, _ := json.Marshal(os.Args[1:])
-		os.Stdout.WriteString(helperMark + string(b) + "\n")
-		os.Exit(0)
-	}
 	core.InitMurex()
-	selfExe, _ = os.Executable()
-	os.Setenv(envHelper, "1")
+	for _, p := range []string{"/usr/bin/printf", "/bin/printf"} {
+		if st, err := os.Stat(p); err == nil && !st.IsDir() {
+			helper = p
+			break
+		}
+	}
 	// c08args: prints the argument vector it was given as JSON.
 	lang.DefineFunction("c08args", func(p *lang.Process) error {
 		b, _ := json.Marshal(p.Parameters.StringArray())
@@ -67,21 +67,24 @@ func TestMain(m *testing.M) {
 // shapes: the statement after the command name. X Y A are replaced by `$x`,
 // `$y`, `@arr`; everything else is literal source text.
 var shapes = []string{
-	"X",          // 0
-	"a X b",      // 1
-	"P",          // 2  $(x)
-	"X Y",        // 3
-	"A",          // 4
-	"X A Y",      // 5
-	"A X",        // 6
-	"a A b",      // 7
-	"X\tY",       // 8
-	"-- X",       // 9
-	"A A",        // 10
-	"a P b Y",    // 11
-	" X  ",       // 12 (extra blanks around)
+	"X",           // 0
+	"a X b",       // 1
+	"P",           // 2  $(x)
+	"X Y",         // 3
+	"A",           // 4
+	"X A Y",       // 5
+	"A X",         // 6
+	"a A b",       // 7
+	"X\tY",        // 8
+	"-- X",        // 9
+	"A A",         // 10
+	"a P b Y",     // 11
+	" X  ",        // 12 (extra blanks around)
 	"X ; c08args", // 13 a second command follows: it must still be exactly one
 }
+
+// array shapes are drawn as often as scalar ones
+var shapeWeights = []int{0, 1, 2, 3, 8, 9, 11, 12, 13, 4, 4, 5, 5, 6, 6, 7, 10, 10}
 
 type Case struct {
 	Shape  int      `json:"shape"`
@@ -133,10 +136,10 @@ func genScalar(t *rapid.T, label string) string {
 
 func gen(t *rapid.T) Case {
 	c := Case{}
-	c.Shape = rapid.IntRange(0, len(shapes)-1).Draw(t, "shape")
+	c.Shape = rapid.SampledFrom(shapeWeights).Draw(t, "shape")
 	c.Obs = rapid.SampledFrom([]string{"parse", "parse", "parse", "parse", "builtin", "builtin", "params", "params", "out", "argv"}).Draw(t, "obs")
-	if c.Obs == "argv" && rapid.IntRange(0, 4).Draw(t, "argv_sample") != 0 {
-		c.Obs = "builtin" // the external observer is a 2 % sample (process start-up cost)
+	if c.Obs == "argv" && rapid.IntRange(0, 1).Draw(t, "argv_sample") != 0 {
+		c.Obs = "builtin" // the external observer is a 5 % sample (process start-up cost)
 	}
 	c.XType = rapid.SampledFrom([]string{types.String, types.String, types.Generic}).Draw(t, "xtype")
 	c.Strict = rapid.Bool().Draw(t, "strict")
@@ -175,7 +178,7 @@ func (c Case) cmdName() string {
 	case "out":
 		return "out"
 	case "argv":
-		return selfExe
+		return helper + ` '%s\0' ` + helperMark
 	default:
 		return "c08args"
 	}
@@ -331,6 +334,10 @@ func check(c Case) *core.Violation {
 	if c.Obs == "" || c.Shape < 0 {
 		return nil
 	}
+	if c.Obs == "argv" && helper == "" {
+		core.Count("argv_helper_unavailable", 1)
+		c.Obs = "builtin"
+	}
 	sentinelSet() // clear anything left behind
 	src := c.Source()
 	stmts := c.model()
@@ -427,14 +434,14 @@ func check(c Case) *core.Violation {
 		}
 		return core.Violf("vector", "%s\nx=%q y=%q arr=%q\nwant stdout %q", ctx, c.X, c.Y, c.Arr, opts[0]+"\n")
 	case "argv":
-		if !strings.HasPrefix(out, helperMark) || !strings.HasSuffix(out, "\n") {
+		if !strings.HasPrefix(out, helperMark+"\x00") {
 			return core.Violf("vector", "external helper output malformed\n%s", ctx)
 		}
-		var got []string
-		if err := json.Unmarshal([]byte(out[len(helperMark):]), &got); err != nil {
-			return core.Violf("vector", "external helper output malformed (%v)\n%s", err, ctx)
+		got := strings.Split(out[len(helperMark)+1:], "\x00")
+		if got[len(got)-1] != "" {
+			return core.Violf("vector", "external helper output malformed\n%s", ctx)
 		}
-		return compare(c, stmts[0], got, ctx)
+		return compare(c, stmts[0], got[:len(got)-1], ctx)
 	}
 	// builtin / params: one JSON array per statement
 	dec := json.NewDecoder(strings.NewReader(out))
@@ -514,7 +521,7 @@ func known(c Case, v *core.Violation) string {
 var spec = core.Spec[Case]{
 	ID: "C08", Gen: gen, Check: check, Classify: classify, Known: known,
 	Sample: func(c Case) any {
-		return map[string]any{"src": strings.Replace(c.Source(), selfExe, "<argvecho>", 1), "x": c.X, "y": c.Y, "arr": c.Arr, "obs": c.Obs}
+		return map[string]any{"src": c.Source(), "x": c.X, "y": c.Y, "arr": c.Arr, "obs": c.Obs}
 	},
 }
 
